@@ -15,13 +15,15 @@ both ways) and then watch, with oracles that never call the cloner:
   4. reference oracle    - original and clone are paired by position; every node input, graph
                            output and sharding-spec value of the clone must be the pair of the
                            original's, device configurations must be the ones registered on the clone;
-  5. fidelity            - field-by-field equality of all public observables of paired objects,
-                           and byte equality of ir.to_proto(original) / ir.to_proto(clone);
+  5. fidelity            - byte equality of ir.to_proto(original) / ir.to_proto(clone), and (names need
+                           not be unique, untyped shapes are not serialised) field-by-field equality of
+                           the serialised public observables of paired objects;
   6. independence        - an edit history (vfpy.world alphabet + every setter) is applied to ONE copy
                            while the all-observables snapshot of the OTHER copy is compared after
                            every single edit;
-  7. functionalize       - functionalize(P)(m) for the built-in passes (and P(m) for passes that
-                           declare changes_input=False) leaves m's snapshot and proto unchanged.
+  7. functionalize       - functionalize(P)(m) for every built-in pass leaves m's snapshot and proto
+                           unchanged (P(m) for passes that declare changes_input=False is run too, but
+                           what it does to m is C14's business: report_only_direct_pass_changed_input).
 """
 
 from __future__ import annotations
@@ -56,7 +58,9 @@ RULE = ("a case = one source (generated model with nested GRAPH/GRAPHS subgraphs
 ASSUMPTIONS = [
     "tensors, non-graph Attr objects, frozen ModelConfiguration objects and SymbolicDim objects may be shared between the copies (docstrings of clone()); they are never mutated in place by the edit histories",
     "Value.name = ... renames the backing tensor; with a shared tensor this changes original.const_value.name - counted as report_only_shared_tensor_renamed, not a violation (the statement allows shared tensors)",
-    "the frozen flag of a Shape, the order of Value.uses(), the name authority's counters and Model.meta are not part of 'serializes exactly like the original'; differences are report-only",
+    "the frozen flag of a Shape, the order of Value.uses(), the name authority's counters, Node.version, the contents/validity flags of meta stores and Model.meta are not serialised, so they are not part of 'serializes exactly like the original'; differences between original and clone are report-only (identity of the containers and leaks through later edits are judged)",
+    "serialising a GraphView decides value_info membership from the owner graph's is_graph_output() flags; view protos are compared without the top-level value_info list (report_only_view_value_info_follows_owner_graph_flags), types/shapes being compared by the structure oracle",
+    "a pass that declares changes_input=False but edits its input when called directly (CheckerPass fills in initializer type/shape) is C14's business: report_only_direct_pass_changed_input",
     "a region whose nodes are not topologically sorted, or whose graphs are nested cyclically / reached twice, or with None names, is outside the judged domain (the cloner documents sortedness); such cases are report-only",
     "edit histories address one copy only: objects of the other copy and captured outer values are never drawn as arguments (RegionWorld); states satisfy the C01 clauses (owned_node_outputs avoided)",
     "snapshot covers every public data attribute of Value/Node/Graph/Function/Model (audited against dir() at start-up) plus nested type denotations, meta validity flags and Model.meta",
@@ -370,8 +374,13 @@ def execute(desc: dict, edits: list | None, rng, n_edits: int, stop_after_sig: s
                 + "\n  " + describe_desc(desc))
 
     if exc is not None:
-        site = histories.raise_site(exc)
-        c[f"clone_raised:{type(exc).__name__}@{site}"] += 1
+        root = exc
+        for _ in range(12):  # the cloner wraps errors once per nesting level: name the root cause
+            if root.__cause__ is None:
+                break
+            root = root.__cause__
+        site = f"{type(root).__name__}@{histories.raise_site(root)}"
+        c[f"clone_raised:{site}"] += 1
         if must_raise:
             c["capture_rejections_expected_and_seen"] += 1
             out.status = "rejected-capture"
@@ -381,10 +390,9 @@ def execute(desc: dict, edits: list | None, rng, n_edits: int, stop_after_sig: s
             c["report_only_clone_raised_outside_judged_domain"] += 1
             out.status = "report-only:raised"
         else:
-            cause = exc.__cause__
-            out.add(f"clone-raised|{api}|{type(exc).__name__}@{site}",
+            out.add(f"clone-raised|{api}|{site}",
                     f"{api}() raised {type(exc).__name__}: {str(exc)[:300]}"
-                    + (f" (caused by {type(cause).__name__}: {str(cause)[:200]})" if cause else "")
+                    + (f" (root cause {type(root).__name__}: {str(root)[:200]})" if root is not exc else "")
                     + " on a well-formed, topologically sorted region without captured outer values\n  " + describe_desc(desc))
             out.status = "violation:raised"
         return out
